@@ -7,6 +7,7 @@ F = "node/libs/concurrency/src/limiter/mod.rs"
 PRELUDE = r"""
 // ---------------- prelude (A2: time crate; A4: tokio watch/mutex; R-type: runtime handles opaque) ----------------
 #[verifier::external_body] pub struct Ctx { _p: u8 }
+impl Ctx { #[verifier::external_body] pub fn is_active(&self) -> bool { unimplemented!() } }      // offered so that code asking for it is decided
 #[verifier::external_body] pub struct Canceled { _p: u8 }
 #[verifier::external_body] pub struct Instant { _p: u8 }
 #[verifier::external_body] pub struct Deadline { _p: u8 }
@@ -20,8 +21,12 @@ pub spec const NANOS_MAX_SPEC: int = 9223372036854775807int * 1000000000int + 99
 impl Duration {
     // A2 (time 0.3): Duration::new(s, n) panics iff normalising n overflows s; with 0 <= n < 10^9 it cannot
     #[verifier::external_body]
-    pub fn new(seconds: i64, nanoseconds: i32) -> (r: Duration) requires 0 <= nanoseconds < 1000000000 { unimplemented!() }
-    #[verifier::external_body] pub fn max() -> Duration { unimplemented!() }
+    pub fn new(seconds: i64, nanoseconds: i32) -> (r: Duration) requires 0 <= nanoseconds < 1000000000
+        ensures seconds >= 0 ==> r.nanos() == seconds * 1000000000 + nanoseconds { unimplemented!() }
+    #[verifier::external_body] pub fn max() -> (r: Duration) ensures r.nanos() == NANOS_MAX_SPEC { unimplemented!() }
+    // A2 (time 0.3): the other constructors, offered so that code using them is decided
+    #[verifier::external_body] pub fn nanoseconds(n: i64) -> (r: Duration) ensures r.nanos() == n { unimplemented!() }
+    #[verifier::external_body] pub fn seconds(n: i64) -> (r: Duration) ensures r.nanos() == n * 1000000000 { unimplemented!() }
     pub uninterp spec fn nanos(&self) -> int;
     #[verifier::external_body] pub fn whole_nanoseconds(&self) -> (r: i128) ensures r == self.nanos(), -NANOS_MAX_SPEC - 1000000000 <= r <= NANOS_MAX_SPEC { unimplemented!() }
 }
@@ -110,10 +115,15 @@ def build(repo):
          header_subs=[("time::Duration", "Duration")],
          subs=[("debug_assert!(d >= 0);", "assert(d >= 0);   // R-dbg"),
                ("const NANOS_MAX: Nanos = time::Duration::MAX.whole_nanoseconds();", "let NANOS_MAX: Nanos = duration_max_nanos();   /* R-std: const of the time crate */"),
-               ("return time::Duration::MAX;", "return Duration::max();"),
+               ("time::Duration::MAX", "Duration::max()", None),
                ("time::Duration::new((d / NANOS_PER_SEC) as i64, (d % NANOS_PER_SEC) as i32)",
-                "Duration::new(cast_i128_i64(d / NANOS_PER_SEC), cast_i128_i32(d % NANOS_PER_SEC))   /* R-cast */")],
-         spec="    requires d >= 0,      // never panics for any non-negative nanosecond count\n")
+                "Duration::new(cast_i128_i64(d / NANOS_PER_SEC), cast_i128_i32(d % NANOS_PER_SEC))   /* R-cast */", None),
+               ("time::Duration::", "Duration::", None)],
+         spec="""
+    requires d >= 0,      // never panics for any non-negative nanosecond count
+    // a SATURATING conversion: the wait handed to the clock is never shorter than the computed one (a shortened wait grants permits early)
+    ensures r.nanos() == (if d <= NANOS_MAX_SPEC { d as int } else { NANOS_MAX_SPEC }),
+""")
     U.fn(F, "fn usize_or_max", ret="r",
          subs=[("debug_assert!(v >= 0);", "assert(v >= 0);   // R-dbg"),
                ("v.try_into().unwrap_or(usize::MAX)", "verif_i128_to_usize_or(v, usize::MAX)   /* R-std */")],
